@@ -34,6 +34,7 @@
 #include <fstream>
 #include <sstream>
 #include <set>
+#include <memory>
 #include <cstdio>
 #include <cstdlib>
 #include <unistd.h>
@@ -74,6 +75,13 @@ no_exclude(const char* id)
     return true;
   return ("," + v + ",").find(std::string(",") + id + ",") != std::string::npos;
 }
+
+// N6 (domain audit): a header that lists an EVEN number of segments (only possible with a segment range that is not symmetric) trips
+// assert(num_segments % 2 == 1) in find_segment_sequence (InterfileHeader.cxx:846) when it is read back.  The code below that assertion
+// does not depend on the count being odd (it sorts by mean ring difference and numbers relative to segment 0), Release builds read such
+// headers correctly, so no sentence of the property is broken: assertion-only (DESIGN section 11).  Cases with an even number of
+// segments therefore run with the library's assertions off (counted) and are judged by the normal oracles.
+static const bool N6_ASSERTION_ONLY = true;
 
 enum Backing
 {
@@ -338,6 +346,9 @@ struct Run
   std::vector<int> written_by;      // ... and the peer that wrote it
   long clock_ = 0;
 
+  bool wide_values = false;         // set in setup(): case flag "wide" and a power-of-two scale factor
+  shared_ptr<ProjDataInfo> pdi_twin; // an equal ProjDataInfo in another object (case flag "twin_info")
+
   explicit Run(const json& cc) : c(cc) {}
   const Geo& geo() const { return *geo_p; }
   bool is_float_like() const { return backing == B_MEM || !L.td().integer; }
@@ -358,6 +369,22 @@ struct Run
     const auto& td = L.td();
     long k;
     const long r = g.range(0, 9);
+    // Domain audit AUD_B: |k| <= 2^20 leaves the upper 11 bits of the 4-byte types and the upper 43 bits of the 8-byte types
+    // always 0 (or all 1): a number that is cut to fewer bytes on its way to the file would never show.  Cases with "wide"
+    // (new cases; absent in saved cases = false) write k = m * 2^e with 2^19 <= m < 2^20 for a fifth of the values: float(k) is
+    // exact, k <= 2^30 (int), 2^31 (uint), 2^62 (long), 2^63 (ulong) < type_max / 1.01 (find_scale_factor keeps the scale
+    // factor, convert_range.inl), and with a power-of-two scale factor float(k)*scale/scale == k exactly.
+    if (wide_values && td.kmax == 1000000 && (r == 6 || r == 7))
+      {
+        const int bits = 8 * td.size;
+        const int emax = bits - 21 - (td.is_signed ? 1 : 0);
+        const long m = g.range(1L << 19, (1L << 20) - 1);
+        const int e = int(g.range(emax - 3, emax));
+        const bool negative = td.is_signed && g.range(0, 1) == 1;
+        const float f = std::ldexp(float(m), e);
+        vf::stats().count("wide integer values (upper bytes of 4/8-byte types in use)");
+        return (negative ? -f : f) * L.scale;
+      }
     if (r == 0)
       k = td.kmax;
     else if (r == 1)
@@ -509,6 +536,12 @@ Run::setup()
       L = Layout();
       L.seq = standard_sequence(g);
     }
+  {
+    int ex = 0;
+    wide_values = c.value("wide", false) && std::frexp(L.scale, &ex) == 0.5F;
+    if (c.value("twin_info", false))
+      pdi_twin = pdi->create_shared_clone();
+  }
   ref.assign(g.n, 0.F);
   const bool tof = g.ntof() > 1;
   const NumericType nt(L.td().id);
@@ -591,7 +624,11 @@ Run::setup()
 
   // symmetries for the related-viewgram paths
   symm.reset(new TrivialDataSymmetriesForViewSegmentNumbers);
-  if (c["sym"].get<int>() == 1)
+  // (PET symmetries relate segment s to -s: with a segment range that is not symmetric the related set would leave the data;
+  //  the trivial symmetries are used there and the case is counted)
+  if (c["sym"].get<int>() == 1 && g.min_seg != -g.max_seg)
+    vf::stats().count("segment range not symmetric: trivial symmetries instead of PET symmetries");
+  else if (c["sym"].get<int>() == 1)
     {
       try
         {
@@ -1062,7 +1099,12 @@ Run::run_op(const json& op, std::size_t opno)
       return after_write(op, vf::cat(tag, " set_bin_value", g.name(s, a, v, t, k), "=", x));
     }
     case W_VIEWGRAM: {
-      Viewgram<float> vw = V % 2 ? pd->get_empty_viewgram(v, s, false, k) : Viewgram<float>(pdi, ViewgramIndices(v, s, k));
+      // (twin: the viewgram belongs to an EQUAL ProjDataInfo held by another object; set_viewgram documents a comparison of the
+      //  infos, not of the pointers)
+      const bool twin = pdi_twin && V % 4 == 2;
+      if (twin)
+        vf::stats().count("set_viewgram/set_sinogram with an item of an equal ProjDataInfo in another object");
+      Viewgram<float> vw = V % 2 ? pd->get_empty_viewgram(v, s, false, k) : Viewgram<float>(twin ? pdi_twin : pdi, ViewgramIndices(v, s, k));
       for (int aa = g.minax(s); aa <= g.maxax(s); ++aa)
         for (int tt = g.min_tang; tt <= g.max_tang; ++tt)
           ref[g.idx(s, aa, v, tt, k)] = vw[aa][tt] = value(rng);
@@ -1070,7 +1112,10 @@ Run::run_op(const json& op, std::size_t opno)
       return after_write(op, vf::cat(tag, " set_viewgram(view=", v, ",seg=", s, ",tof=", k, ")"));
     }
     case W_SINOGRAM: {
-      Sinogram<float> sn = V % 2 ? pd->get_empty_sinogram(a, s, false, k) : Sinogram<float>(pdi, SinogramIndices(a, s, k));
+      const bool twin = pdi_twin && V % 4 == 2;
+      if (twin)
+        vf::stats().count("set_viewgram/set_sinogram with an item of an equal ProjDataInfo in another object");
+      Sinogram<float> sn = V % 2 ? pd->get_empty_sinogram(a, s, false, k) : Sinogram<float>(twin ? pdi_twin : pdi, SinogramIndices(a, s, k));
       for (int vv = g.min_view; vv <= g.max_view; ++vv)
         for (int tt = g.min_tang; tt <= g.max_tang; ++tt)
           ref[g.idx(s, a, vv, tt, k)] = sn[vv][tt] = value(rng);
@@ -1342,9 +1387,16 @@ Run::run_op(const json& op, std::size_t opno)
     case E_OOB:
       return op_oob(op, tag);
     case H_HEADER:
-      return op_header(tag, op[7].get<int>());
     case H_WRITE_TO_FILE:
-      return op_write_to_file(tag, op[7].get<int>());
+      // known finding N6: a header that lists an even number of segments trips assert(num_segments % 2 == 1) in
+      // find_segment_sequence (InterfileHeader.cxx) when it is read back; in-memory / stringstream data with such a range keep
+      // their histories, only the header operations are left out (VERIF_NO_EXCLUDE=N6 runs them)
+      if (g.nseg() % 2 == 0 && !N6_ASSERTION_ONLY && !no_exclude("N6"))
+        {
+          vf::stats().count("excluded N6: header operation on data with an even number of segments left out");
+          return Result::pass();
+        }
+      return code == H_HEADER ? op_header(tag, op[7].get<int>()) : op_write_to_file(tag, op[7].get<int>());
     default:
       return Result::pass(); // unknown codes are no-ops (keeps every mutated sequence valid)
     }
@@ -1726,8 +1778,13 @@ const char* const kind_names[] = { "segment", "axial position", "view", "tangent
 
 struct AssertsOff
 {
-  AssertsOff() { stir_verif::asserts_on = false; }
-  ~AssertsOff() { stir_verif::asserts_on = true; }
+  const bool was;
+  AssertsOff()
+      : was(stir_verif::asserts_on)
+  {
+    stir_verif::asserts_on = false;
+  }
+  ~AssertsOff() { stir_verif::asserts_on = was; } // (nests: an inner guard must not switch an outer one off)
 };
 
 Result
@@ -1772,25 +1829,37 @@ Run::op_oob(const json& op, const std::string& tag)
       if (bigger->get_max_segment_num() <= g.max_seg || bigger->get_min_segment_num() >= g.min_seg)
         kind = K_TOF;
     }
+  // Domain audit AUD_B: "requests outside the index ranges" is not only one step outside.  Cases with "oob_far" (absent in saved
+  // cases = false) make a fifth of the requests further out: 2 steps, exactly one period of that index (the request that would
+  // alias onto the first / last legal item if the index were only used in an offset), 1000 and 2^20 steps.  (set_segment with a
+  // segment outside keeps one step: the segment has to exist in the untrimmed info.)
+  int step = 1;
+  if (c.value("oob_far", false) && (V / 200) % 5 == 4 && !(path == 9 && kind == K_SEG))
+    {
+      const int period = kind == K_SEG ? g.nseg() : kind == K_AX ? g.nax(s) : kind == K_VIEW ? g.nviews() : kind == K_TANG ? g.ntang() : g.ntof();
+      const int steps[4] = { 2, period, 1000, 1 << 20 };
+      step = steps[(op[1].get<long>() + op[3].get<long>()) % 4];
+      vf::stats().count(vf::cat("out-of-range requests further than one step: ", step == period ? "one period" : (step == 2 ? "2" : (step == 1000 ? "1000" : "2^20"))));
+    }
   switch (kind)
     {
     case K_SEG:
-      s = above ? g.max_seg + 1 : g.min_seg - 1;
+      s = above ? g.max_seg + step : g.min_seg - step;
       break;
     case K_AX:
-      a = above ? g.maxax(s) + 1 : g.minax(s) - 1;
+      a = above ? g.maxax(s) + step : g.minax(s) - step;
       break;
     case K_VIEW:
-      v = above ? g.max_view + 1 : g.min_view - 1;
+      v = above ? g.max_view + step : g.min_view - step;
       break;
     case K_TANG:
-      t = above ? g.max_tang + 1 : g.min_tang - 1;
+      t = above ? g.max_tang + step : g.min_tang - step;
       break;
     default:
-      k = above ? g.max_tof + 1 : g.min_tof - 1;
+      k = above ? g.max_tof + step : g.min_tof - step;
       break;
     }
-  const std::string what = vf::cat(tag, " ", pnames[path], " with ", kind_names[kind], " one step ", above ? "above" : "below", " the range: ",
+  const std::string what = vf::cat(tag, " ", pnames[path], " with ", kind_names[kind], " ", step, " step(s) ", above ? "above" : "below", " the range: ",
                                    "(seg=", s, ",ax=", a, ",view=", v, ",tang=", t, ",tof=", k, ") on ", backing_names[backing]);
   // (former findings L2: view/tangential position not range-checked in get_index()/get_offset(), and N3: segment number
   //  used as an index into the per-segment arrays of ProjDataInfo before any range test, are repaired: every kind of
@@ -1981,9 +2050,18 @@ Run::op_write_to_file(const std::string& tag, int sel)
 // ---- the property -----------------------------------------------------------------------------------
 bool nontrivial(const json& c);
 
+bool even_number_of_segments(const json& c);
+
 Result
 check(const json& c)
 {
+  // (before the set-up of the run: file-backed stores read their header there)
+  std::unique_ptr<AssertsOff> n6_asserts_off;
+  if (N6_ASSERTION_ONLY && even_number_of_segments(c))
+    {
+      n6_asserts_off.reset(new AssertsOff);
+      vf::stats().count("cases with an even number of segments: run with the library's assertions off (N6, assertion-only)");
+    }
   Run run(c);
   Result r = run.setup();
   if (r.kind != Result::PASS)
@@ -2012,6 +2090,18 @@ check(const json& c)
       st.cls("unequal axial counts per segment");
     if (g.nseg() > 1)
       st.cls("more than one segment");
+    if (g.min_seg != -g.max_seg)
+      st.cls("segment range not symmetric");
+    if (run.wide_values && run.stream_backed && run.L.td().kmax == 1000000)
+      st.cls(std::string("wide integer values in type ") + run.L.td().name);
+    if (c["exam"]["frame"].is_array())
+      {
+        const double st0 = c["exam"]["frame"][0].get<double>(), en0 = st0 + c["exam"]["frame"][1].get<double>();
+        if (st0 == 0)
+          st.cls("exam: frame starts at time 0");
+        else if (st0 < 0)
+          st.cls(en0 < 0 ? "exam: frame ends before time 0" : (en0 == 0 ? "exam: frame ends at time 0" : "exam: frame starts before time 0"));
+      }
     if (run.symm_is_pet)
       st.cls("PET symmetries for related viewgrams");
     if (dynamic_cast<const ProjDataInfoCylindricalArcCorr*>(run.pdi.get()))
@@ -2057,11 +2147,38 @@ single_mashed_tof_bin(const json& c)
   return mash > 0 && poss > 0 && poss / mash == 1;
 }
 
+//! N6: the segment range has an even number of segments (only possible with a range that is not symmetric) and a header is read
+bool
+even_number_of_segments(const json& c)
+{
+  if (!c["pdi"]["trim"].contains("min_seg"))
+    return false;
+  try
+    {
+      shared_ptr<Scanner> sc = vg::make_scanner(c["scanner"]);
+      return vg::make_pdi(sc, c["pdi"])->get_num_segments() % 2 == 0;
+    }
+  catch (const std::exception&)
+    {
+      return false;
+    }
+}
+
+bool
+history_reads_a_header(const json& c)
+{
+  // file-backed stores: second readers / long-lived objects / the Interfile pair itself read the header.  (In-memory and
+  // stringstream data only read a header in the header operations, which run_op() leaves out for such data.)
+  return c["backing"].get<int>() >= B_FSTREAM;
+}
+
 std::string
 known_signature(const json& c)
 {
   if (!no_exclude("N4") && single_mashed_tof_bin(c))
     return "C02:N4:TOF data with a single (fully mashed) TOF bin lose their TOF mashing factor in the header";
+  if (!N6_ASSERTION_ONLY && !no_exclude("N6") && even_number_of_segments(c) && history_reads_a_header(c))
+    return "C02:N6:header listing an even number of segments trips assert(num_segments % 2 == 1) in find_segment_sequence when read back";
   return "";
 }
 
@@ -2324,6 +2441,66 @@ gen(Src& s, int size)
       plain_op(code, s.range(0, 999));
     }
   c["ops"] = ops;
+  // ---- domain audit AUD_B: boundaries the quantifier covers that the draws above never / practically never produce.  Drawn LAST
+  // (the earlier part of the random stream is unchanged); every field is read with a default so that saved cases keep their meaning.
+  // (a) time frame of the exam information: the start was k/2 with k uniform in 0..4000 (exactly 0 once in 4001 cases, never
+  //     negative).  TimeFrameDefinitions only demands start <= end.
+  if (c["exam"]["frame"].is_array())
+    {
+      const long w = s.range(0, 7);
+      const double st0 = c["exam"]["frame"][0].get<double>(), du0 = c["exam"]["frame"][1].get<double>();
+      if (w == 0 || w == 1)
+        c["exam"]["frame"][0] = 0.;
+      else if (w == 2)
+        c["exam"]["frame"][0] = -st0 - 0.5; // before the reference time; ends before or after it
+      else if (w == 3)
+        c["exam"]["frame"][0] = -du0; // ends exactly at the reference time
+    }
+  // (b) integer storage of 4 and 8 bytes: values that need the upper bytes (see Run::value)
+  c["wide"] = s.coin();
+  // (c) out-of-range requests further than one step outside
+  c["oob_far"] = true;
+  // (d) items that belong to an equal ProjDataInfo in another object
+  c["twin_info"] = s.chance(1, 3);
+  // (e) a segment range that is not symmetric (reduce_segment_range(-a, b), a != b; ProjData::standard_segment_sequence handles
+  //     "-segment_num >= min_segment_num" and "segment_num <= max_segment_num" separately): a sub-range of the symmetric one
+  if (s.chance(1, 3))
+    {
+      int max_seg = 0;
+      try
+        {
+          max_seg = vg::make_pdi(sc, c["pdi"])->get_max_segment_num();
+        }
+      catch (const std::exception&)
+        {}
+      if (max_seg > 0)
+        {
+          const int keep = int(s.range(0, max_seg - 1));
+          if (!c["pdi"]["trim"].contains("tang_cut"))
+            c["pdi"]["trim"]["tang_cut"] = 0;
+          if (s.coin())
+            {
+              c["pdi"]["trim"]["max_seg"] = max_seg;
+              c["pdi"]["trim"]["min_seg"] = -keep;
+            }
+          else
+            {
+              c["pdi"]["trim"]["max_seg"] = keep;
+              c["pdi"]["trim"]["min_seg"] = -max_seg;
+            }
+          // known finding N6 (even number of segments in a header that is read back), excluded by construction for the
+          // file-backed stores, whose histories read the header all the time: one more segment on the short side
+          if ((max_seg + keep + 1) % 2 == 0 && backing >= B_FSTREAM && !N6_ASSERTION_ONLY && !no_exclude("N6"))
+            {
+              if (c["pdi"]["trim"]["max_seg"].get<int>() == keep)
+                c["pdi"]["trim"]["max_seg"] = keep + 1;
+              else
+                c["pdi"]["trim"]["min_seg"] = -(keep + 1);
+              vf::stats().excluded_known++;
+              vf::stats().count("excluded N6: generator made the number of segments odd for file-backed data");
+            }
+        }
+    }
   return c;
 }
 
